@@ -239,7 +239,11 @@ func updateChildren(client *dynamicclientset.ResourceClient, updateStrategy Chil
 		if ssaOptions.Strategy == ApplyStrategyServerSideApply {
 			// We always claim everything we create or apply, as the dynamic apply
 			// path below does on create.
-			obj.SetOwnerReferences(append(obj.GetOwnerReferences(), *MakeControllerRef(parent)))
+			// (Unless the hook already returned it, e.g. because it echoes the
+			// object it observed: a second controller reference is invalid.)
+			if !metav1.IsControlledBy(obj, parent) {
+				obj.SetOwnerReferences(append(obj.GetOwnerReferences(), *MakeControllerRef(parent)))
+			}
 			data, err := json.Marshal(obj)
 			if err != nil {
 				errs = append(errs, err)
